@@ -4,7 +4,7 @@ CONSTANTS AsIs, Emit, RMax, PMax
 VARIABLES sc, S, phase
 Masks(V) == {m \in [1..V -> BOOLEAN] : \E v \in 1..V : m[v]}
 Init == /\ \E R \in 1..RMax : \E P \in 1..PMax : \E V \in 1..3 : \E mask \in Masks(V) : \E shared \in BOOLEAN :
-           \E method \in {"norm", "uniform", "truncnorm", "sobol", "halton", "lhs"} : \E two \in BOOLEAN :
+           \E method \in {"norm", "uniform", "truncnorm", "sobol", "halton", "lhs", "default"} : \E two \in BOOLEAN :
              /\ (two => V >= 2 /\ \E v \in 1..V : ~mask[v])          \* a second sampler handles the complementary variables
              /\ sc = [R |-> R, P |-> P, V |-> V, mask |-> mask, shared |-> shared, method |-> method, two |-> two]
         /\ S = <<>> /\ phase = "init"
